@@ -25,3 +25,9 @@ claim("C03",
       "Decides the no-crash clause for operators (every operand type assertion is dominated by a type test or uses the comma-ok form; every division's divisor value and every signed shift count is checked on all paths) and the context-independence clause of truthiness (every boolean context decides through data.AsBool and none inspects a payload itself). Arithmetic results, ==/<=> laws and AsBool's own answers are value-level and not decided.",
       "operator node set derived from the constructors; facts killed on assignment; calls assumed not to modify locals; Go panic conditions as oracle",
       "DESIGN.md §2 C03")
+
+claim("C05",
+      "path dataflow over TryStatement's methods (finally-region counter with computed method summaries, recover-exit detection), catch-dispatch loop typestate, exit-status reachability at the process boundary",
+      "Decides that every exit of the try statement — including the recovered-panic path — has passed the finally region exactly once, that catch clauses are tried in declaration order with the first match leaving the loop and the thrown object bound to the catch variable, and that a failed parse/run or an uncaught control cannot reach a zero exit status. The class-matching relation itself is C08's clause; diagnostic text and output flushing order are not decided.",
+      "a defer+recover that assigns named results is modelled as an exit bypassing the body; summaries recomputed each run; main's os.Exit(1) on error is the failing exit",
+      "DESIGN.md §2 C05")
